@@ -374,6 +374,11 @@ func ioGated(run *vk.Run, shared map[string]*conc.Shared) {
 			}
 			done := make(chan res, 1)
 			go func() {
+				defer func() {
+					if p := recover(); p != nil {
+						done <- res{nil, fmt.Errorf("panic: %v", p)}
+					}
+				}()
 				r, err := age.Decrypt(g, s.Identity)
 				if err != nil {
 					done <- res{nil, err}
@@ -382,12 +387,21 @@ func ioGated(run *vk.Run, shared map[string]*conc.Shared) {
 				b, err := io.ReadAll(r)
 				done <- res{b, err}
 			}()
+			panicked := false
 			select {
 			case <-g.blocked:
 			case r := <-done:
+				if r.err != nil && strings.HasPrefix(r.err.Error(), "panic: ") {
+					run.Violation("C20:result-differs-under-io-schedule:"+k, "a Decrypt panicked: "+r.err.Error(), map[string]interface{}{"check": "C20.iogated", "kind": k})
+					panicked = true
+					break
+				}
 				vk.Infra("gated Decrypt finished before reaching the payload: %v", r.err)
 			case <-time.After(30 * time.Second):
 				vk.Infra("gated Decrypt did not reach the payload")
+			}
+			if panicked {
+				break
 			}
 			var wg sync.WaitGroup
 			var wrong int32
@@ -395,6 +409,11 @@ func ioGated(run *vk.Run, shared map[string]*conc.Shared) {
 				wg.Add(1)
 				go func(j int) {
 					defer wg.Done()
+					defer func() {
+						if p := recover(); p != nil {
+							atomic.AddInt32(&wrong, 1)
+						}
+					}()
 					r, err := age.Decrypt(bytes.NewReader(others[j%len(others)]), s.Identity)
 					if err != nil {
 						atomic.AddInt32(&wrong, 1)
